@@ -10,5 +10,8 @@ CONSTANTS
   Faults = @FAULTS@
   Ticker = FALSE
   CloneOnEmit = TRUE
+  ChunkAbort = FALSE
+  FixStopDone = FALSE
+  FixClosed = FALSE
   Admit <- Known
 CHECK_DEADLOCK FALSE
